@@ -560,6 +560,7 @@ def bfs(acc, space, layer, init_name, init_model, make_obj, ops, depth, first_op
         for model, hist, key in level:
             # live objects are not kept in the frontier (memory): the state's object is rebuilt from its history
             case = {"kind": "history", "init": init_name, "ops": [core.jsonable(list(o)) for o in hist]}
+            core.guard_cheap(acc, case)  # also on the deepest level, where no successor is visited
             obj, err = rebuild(hist)
             if err is not None:
                 continue  # already reported when the state was first visited
